@@ -17,7 +17,7 @@
 
 enum { F_LATE_HANDLES, F_SLICED, F_REMOVE_MIDDLE, F_DEAD_REFUSED, F_STATIC_FULL, F_GREW, F_CLEAR_LIVE, F_DUP_MIN,
        F_STATIC_HANDLE_REFUSED, F_REMOVE_ROOT, F_REMOVE_LAST, F_EMPTY_POP, F_CMP_THREE_WAY, F_CMP_BOOLEAN, F_CMP_DIFFERENCE,
-       F_CMP_EXTREMES, F_REMOVE_BY_COPY };
+       F_CMP_EXTREMES, F_REMOVE_BY_COPY, F_GIANT_QUEUE };
 
 struct elem {
     uint8_t bytes[MAX_ITEM];
@@ -554,6 +554,78 @@ static void run_case(uint64_t case_idx) {
               (unsigned long long)(st1.live_blocks - st0.live_blocks));
 }
 
+/* ------------------------------------------------------------------ a queue of more than 2^31 one-byte elements
+ * (once per -O2 stage run; static queue over address space the harness reserves, 2 GiB of it get touched). 2^31-1 equal
+ * elements are pushed through the API (each stays where it lands), then 2, 1 and 9; one pop sends the 9 from the root down to
+ * slot 2^31, where index arithmetic must not wrap. Afterwards heap order is checked over the whole array and the next pops
+ * must be 0, and - once the zeros are gone - would be 1, 2, 9 (checked directly on the array instead of popping 2^31 times). */
+#ifndef DEBUG_BUILD
+#    include <sys/mman.h>
+static int giant_cmp(const void *a, const void *b) {
+    return (int)*(const uint8_t *)a - (int)*(const uint8_t *)b;
+}
+static void giant_case(void) {
+    const size_t zeros = ((size_t)1 << 31) - 1, cap = zeros + 64;
+    mon_fp(0x61A9);
+    uint8_t *heap = mmap(NULL, cap, PROT_READ | PROT_WRITE, MAP_PRIVATE | MAP_ANONYMOUS | MAP_NORESERVE, -1, 0);
+    if (heap == MAP_FAILED) {
+        mon_count("giant_queue_skipped_no_address_space", 1);
+        return;
+    }
+    struct aws_priority_queue q;
+    aws_priority_queue_init_static(&q, heap, cap, 1, giant_cmp);
+    uint8_t v = 0;
+    bool ok = true;
+    for (size_t i = 0; i < zeros && ok; ++i) {
+        ok = aws_priority_queue_push(&q, &v) == AWS_OP_SUCCESS;
+    }
+    static const uint8_t TAIL[3] = {2, 1, 9};
+    for (int i = 0; i < 3 && ok; ++i) {
+        ok = aws_priority_queue_push(&q, &TAIL[i]) == AWS_OP_SUCCESS;
+    }
+    if (!ok) {
+        mon_violation("C06:giant:push-failed", "push into a static queue of capacity %zu failed at size %zu (error %d)", cap, aws_priority_queue_size(&q), aws_last_error());
+    } else {
+        uint8_t out = 0xFF;
+        if (aws_priority_queue_pop(&q, &out) || out != 0 || aws_priority_queue_size(&q) != zeros + 2) {
+            mon_violation("C06:giant:pop", "pop from a queue of %zu elements (minimum 0) returned %u, size now %zu", zeros + 3, out, aws_priority_queue_size(&q));
+        } else {
+            size_t n = zeros + 2, cnt[3] = {0, 0, 0};
+            for (size_t i = 1; i < n; ++i) {
+                if (heap[i] < heap[(i - 1) / 2]) {
+                    mon_violation("C06:giant:heap-order", "after one pop on a queue of %zu one-byte elements: slot %zu holds %u under parent slot %zu holding %u", zeros + 3, i,
+                                  heap[i], (i - 1) / 2, heap[(i - 1) / 2]);
+                    break;
+                }
+            }
+            size_t other = 0;
+            for (size_t i = 0; i < n; ++i) {
+                if (heap[i]) {
+                    cnt[0] += heap[i] == 1;
+                    cnt[1] += heap[i] == 2;
+                    cnt[2] += heap[i] == 9;
+                    other += heap[i] != 1 && heap[i] != 2 && heap[i] != 9;
+                }
+            }
+            if (cnt[0] != 1 || cnt[1] != 1 || cnt[2] != 1 || other) {
+                mon_violation("C06:giant:contents", "after one pop on a queue of %zu elements the array holds %zu x 1, %zu x 2, %zu x 9 and %zu other non-zero elements (expected one each, no others)",
+                              zeros + 3, cnt[0], cnt[1], cnt[2], other);
+            }
+            for (int k = 0; k < 3; ++k) {
+                if (aws_priority_queue_pop(&q, &out) || out != 0) {
+                    mon_violation("C06:giant:pop", "pop %d after the first returned %u from a queue whose minimum is 0", k + 2, out);
+                    break;
+                }
+            }
+        }
+    }
+    aws_priority_queue_clean_up(&q);
+    munmap(heap, cap);
+    mon_flag(F_GIANT_QUEUE);
+    mon_count("queues_of_more_than_2_pow_31_elements", 1);
+}
+#endif
+
 int main(int argc, char **argv) {
     mon_init(argc, argv, "C06");
     aws_common_library_init(aws_default_allocator());
@@ -561,13 +633,20 @@ int main(int argc, char **argv) {
                                   "static_full_refused", "dynamic_growth", "clear_with_live_handles", "duplicate_min_keys",
                                   "static_handle_refused", "remove_root", "remove_last", "pop_on_empty", "comparator_three_way",
                                   "comparator_boolean_a_gt_b", "comparator_scaled_difference", "comparator_INT_MIN_INT_MAX",
-                                  "remove_by_copied_handle"};
+                                  "remove_by_copied_handle", "queue_of_more_than_2_pow_31_elements"};
     for (int i = 0; i < (int)(sizeof(names) / sizeof(names[0])); ++i) {
         mon_flag_name(i, names[i]);
     }
     uint64_t c;
     while (mon_next_case(&c)) {
         mon_case_begin(c);
+#ifndef DEBUG_BUILD
+        if (c == 333) { /* once per -O2 stage run */
+            giant_case();
+            mon_case_end(true);
+            continue;
+        }
+#endif
         run_case(c);
         mon_case_end(mon_flag_count() >= 4);
     }
